@@ -68,6 +68,7 @@ def handleC15 : Handler := fun args =>
   | "supervisor-rejcfg" :: up :: evs => some (supervisorReply cfgSrc up evs)
   | "supervisor-start" :: up :: evs => some (supervisorReply cfgSrc up evs)
   | "supervisor-long" :: up :: evs => some (supervisorReply cfgSrc up evs)
+  | "supervisor-refuse" :: up :: evs => some (supervisorReply cfgSrc up evs)
   | "supervisor-intended" :: up :: evs => some (supervisorReply cfgIntended up evs)
   | "supervisor-aswritten" :: up :: evs => some (supervisorReply cfgAsWritten up evs)
   | "trysend" :: outs => some (sendReply trySend outs)
